@@ -23,6 +23,7 @@ INT_L1 = [
     "sum(xs)", "sum(i for i in xs)", "len([i for i in xs if i > 0])", "int(b)", "(z := x + 1)", "x if b else y",
     "o.xs[0]", "o.get(x)", "func(x, k=y)", "func(*xs[:1])", "func(**{'k': x})", "len({i for i in xs})",
     "len({i: i + 1 for i in xs})", "{'a': x}['a']", "(x, y)[0]", "[x, y][1]", "len(xs[1:])", "len(xs[::2])", "sum(xs[:y])",
+    "kwsum(**{'k': x}, **{'j': y})", "kwsum(**{'k': x}, j=y, **{'i': 1})", "func(*xs[:1], *xs[1:2], k=y)",
     "len(str(x)) - 1", "len(f'{x}') - 1", "len(f'{x!r:>3}') - 3", "x.real", "o.n + G", "C - y",
 ]
 BOOL_ATOMS = ["b", "o.flag", "True"]
@@ -41,7 +42,8 @@ def bool_l1(ints: Sequence[str]) -> List[str]:
             "str(x) == '1'", "x in (1, 2)", "x in {1: 2}", "len(xs) > 0 and xs[0] > 0", "xs and xs[0] > 0",
             "not xs or xs[0] > 0", "b and x > 0", "b or x > 0", "x > 0 if b else y > 0", "(w := len(xs)) > 1 and w < 3",
             "x is y", "b is True", "[i for i in xs if i > 0] == xs", "{i for i in xs} == {1}",
-            "{i: 0 for i in xs} == {}", "sorted(xs) == xs", "sorted(xs, reverse=True) == xs"]
+            "{i: 0 for i in xs} == {}", "sorted(xs) == xs", "sorted(xs, reverse=True) == xs", "kwkeys(**{'k': x}, j=y) == ['j', 'k']",
+            "kwkeys(j=y, **{'k': x}) == []"]
     return out
 
 
@@ -225,7 +227,7 @@ def all_generators(expr: str) -> List[Tuple[str, str]]:
 # ---------------------------------------------------------------------------------------------
 MODULE_HEADER = '''"""generated by vfw.exprgen - regenerated on every run, do not edit"""
 import icontract
-from vfw.exprsupport import REC, Obj, func
+from vfw.exprsupport import REC, Obj, func, kwsum, kwkeys
 
 G = 7
 
